@@ -98,6 +98,9 @@ func main() {
 	}()
 	res := vutil.NewResult()
 	maxN := 4
+	if *tier == "thorough" {
+		maxN = 5
+	}
 	var items []item
 	for c := range classes {
 		for p := range physes {
